@@ -36,7 +36,7 @@ ASSUMPTIONS = [
     "other; tightness is 1e-7 * scale, so a sub-threshold cubic term at ordinary scale cannot move an extremum by more",
 ]
 TOLERANCES = {"containment": "1e-9 * S", "tightness": "1e-7 * S", "arc": "+ 1e-15 * (ratio*cond)^2 * S"}
-MANDATORY_LABELS = {"quick": ["seg:Q", "seg:C", "seg:A", "seg:L", "extrema:0", "extrema:1", "extrema:2", "cubic:near-linear", "arc:beyond-full-turn", "arc:tiny", "path", "subpath", "stroke:transformed", "stroke:untransformed", "shape:rrect", "shape:circle", "group", "group:nested", "group:empty", "use", "use:chained"]}
+MANDATORY_LABELS = {"quick": ["seg:Q", "seg:C", "seg:A", "seg:L", "extrema:0", "extrema:1", "extrema:2", "cubic:near-linear", "arc:beyond-full-turn", "arc:tiny", "path", "subpath", "stroke:transformed", "stroke:untransformed", "shape:rrect", "shape:circle", "group", "group:nested", "group:empty", "use", "use:chained", "history:created-empty-then-sized"]}
 MANDATORY_LABELS["thorough"] = MANDATORY_LABELS["quick"]
 
 GOLD = (math.sqrt(5.0) - 1.0) / 2.0
@@ -227,7 +227,7 @@ def decode_path(d):
 
 
 def decode_shape(d):
-    return {"kind": "shape", "shape": c02.shape_params(d), "A": gen.matrix(d), "stroke": stroke_choice(d)}
+    return {"kind": "shape", "shape": c02.shape_params(d), "A": gen.matrix(d), "stroke": stroke_choice(d), "grown": d.chance(1, 4)}
 
 
 def decode_group(d):
@@ -414,6 +414,19 @@ def check_shape(case):
     if sw is not None:
         shape.stroke = se.Color("blue")
         shape.stroke_width = sw
+    if case.get("grown") and kind in ("rect", "rrect", "circle", "ellipse"):
+        # the way an editor makes a shape: created with no size, asked for its boxes (none to give), then sized
+        o.label("history:created-empty-then-sized")
+        sized = dict((k_, getattr(shape, k_)) for k_ in (("width", "height") if kind in ("rect", "rrect") else ("rx", "ry")))
+        for k_ in sized:
+            setattr(shape, k_, 0.0)
+        for tr_ in (False, True):
+            for ws_ in (False, True):
+                empty = shape.bbox(transformed=tr_, with_stroke=ws_)
+                if empty is not None:
+                    return o.violation("shape:%s:empty-has-box" % kind, "%s with zero size has bbox %r" % (kind, empty))
+        for k_, v_ in sized.items():
+            setattr(shape, k_, v_)
     orig = list(shape.segments(transformed=False))
     if not orig:
         return o.excluded("degenerate shape")
